@@ -361,6 +361,35 @@ variable {α β : Type} {n₀ : Nat} {W : Nat → Prop}
 /-- No class of the table is declared `do_not_copy=True`. -/
 def NoClassDnc (X : Ctx) : Prop := ∀ c, (X.cd c).dnc = false
 
+theorem dncValue?_none (hX : NoClassDnc X) (h : Heap) (self : Ref) (a : Nat) :
+    dncValue? X h self a = none := by
+  unfold dncValue?
+  split
+  · split
+    · split
+      · split
+        · simp [hX _]
+        · rfl
+      · rfl
+    · rfl
+  · rfl
+
+/-- Without class-level `do_not_copy` the guard of 6848228 is the identity. -/
+theorem uncopiedGuard_noDnc {α} (hX : NoClassDnc X) (self : Ref) (a : Nat) (body : M α) :
+    uncopiedGuard X self a body = body := by
+  funext s
+  simp [uncopiedGuard, getHeap, bind, M.bind', dncValue?_none hX]
+
+theorem updateAttr_eq_core (hX : NoClassDnc X) (self : Ref) (a : Nat) (v : Ref)
+    (kw : List (Nat × Ref)) (ip : Bool) :
+    updateAttr X self a v kw ip = updateAttrCore X self a v kw ip := by
+  unfold updateAttr; exact uncopiedGuard_noDnc hX _ _ _
+
+theorem transformAttr_eq_core (hX : NoClassDnc X) (self : Ref) (a : Nat) (f : Option Cb)
+    (kwf : List (Nat × Cb)) (ip : Bool) :
+    transformAttr X self a f kwf ip = transformAttrCore X self a f kwf ip := by
+  unfold transformAttr; exact uncopiedGuard_noDnc hX _ _ _
+
 /-- Every copy registered in the memo was allocated after the boundary. -/
 def MemoFresh (n₀ : Nat) (m : Memo) : Prop := ∀ i j, alGet i m = some j → n₀ ≤ j
 
